@@ -23,25 +23,20 @@ class C02(DiffProperty):
     trusted = ["harness/c02_stream.c plays the transport: it moves finished bytes between the rings and enlarges the reader ring when it is full or the "
                "decoder asks for buffer (as mptio/stream/stream_poll.c does with mpt_queue_prepare)"]
     assumptions = ["the reader ring can grow (realloc succeeds)", "OS-level partial writes/timeouts of mptio are outside the model"]
-    level_text = ("proof (partial): Coq theorems C02_wire_splits_into_frames and C02_stream_integrity_flat: for all message sequences, all splits into pushes and "
-                  "all capacity schedules the wire splits at its delimiters into one frame per message in order, and the decoder loop delivers exactly message i "
-                  "from frame i given the scratch gap (with C03_segmentation_independent: for any cutting of the wire). Ring level, writer: "
-                  "C02_queue_push_refines (one mpt_queue_push on a wrapped ring in any state keeps the stream-level encoder invariant, every branch: aligned, upper "
-                  "part, lower part, out-of-band copy of a straddling block, second push, align-and-retry), C02_ring_writer_invariant, C02_ring_writer_total (no "
-                  "history of pushes/terminations/transport steps faults) and C02_ring_writer_stream (on a ring of any capacity/offset: transport bytes + ring "
-                  "contents = the frames of the completed messages, each delivered by the decoder loop). End to end (C02_stream_end_to_end): any prefix of that stream, cut "
-                  "into any pieces and fed to any sequence of decoder calls (call-level model of mpt_decode_cobs*), delivers a prefix of the sent messages in order. "
-                  "Ring level, reader: C02_ring_reader_delivers_partial / C02_ring_to_ring_partial (every history of wire-ins and mpt_queue_recv/mpt_queue_shift/mpt_message_get steps on a "
-                  "ring of any capacity/offset delivers the reference decodings of the frames at the front of the accepted bytes, a prefix of what the ring writer sent; "
-                  "the history ends at the first decoder error incl. MissingBuffer). The MissingBuffer recovery path of queue_recv: "
-                  "executable mechanism model compared with the implementation after every operation, decided against the specification 'received = sent' on "
-                  "rings of many capacities/offsets with arbitrary wire cuts incl. single-byte delivery")
-    level_note = ("partial: (1) the reader-side ring theorems end at the first decoder error; the MissingBuffer recovery path of mpt_queue_recv (mpt_qpre prefix space, "
-                  "chunked move), which ZPE framings reach when a zero pair arrives with too little gap, has an executable mechanism model compared with the "
-                  "implementation after every operation (ring offsets/lengths, decoder state, contents) but no theorem; (2) 'everything arrives after a drain' is "
-                  "proved per frame at loop level only and decided for histories by the correspondence run; (3) mptio stream glue (sockets, poll) is not executed. "
-                  "The writer-side ring code is proved for all branches. Theorems closed under the global context.")
-    technique = "Coq theorems: composition encoder o wire o decoder (flat level) and ring-level writer refinement (history invariant); specification-level differential check of the ring-level mechanism model"
+    level_text = ("proof (partial): SAFETY is proved end to end at ring level for all histories, liveness only per frame. Flat level: C02_wire_splits_into_frames, "
+                  "C02_stream_integrity_flat (all message sequences, all splits into pushes, all capacity schedules). Ring level, writer: C02_queue_push_refines (one "
+                  "mpt_queue_push on a wrapped ring in any state keeps the stream-level encoder invariant, every branch: aligned, upper part, lower part, out-of-band "
+                  "copy of a straddling block, second push, align-and-retry), C02_ring_writer_invariant, C02_ring_writer_total (no history faults), "
+                  "C02_ring_writer_stream (transport bytes + ring contents = the frames of the completed messages). Ring level, reader: C02_ring_reader_delivers (every "
+                  "history of wire-ins, mpt_queue_recv incl. its MissingBuffer recovery with mpt_qpre and the chunked move, mpt_queue_shift, mpt_message_get and "
+                  "enlargements by mpt_queue_prepare, on a ring of any capacity/offset, delivers the reference decodings of the frames at the front of the accepted "
+                  "bytes). Composition: C02_stream_end_to_end, C02_ring_to_ring (any prefix of the writer's stream in any pieces: delivered = a prefix of sent, in order). "
+                  "Tied to the code by differential execution of the same ring-level model (state compared after every operation) on rings of many capacities/offsets "
+                  "with arbitrary wire cuts incl. single-byte delivery, decided against the specification 'received = sent'")
+    level_note = ("partial: liveness ('everything arrives after a drain') is proved per frame at loop level only (C02_stream_integrity_flat with the gap condition) and "
+                  "decided for histories by the correspondence run; a genuine decoding error ends the reader history of the theorem; mptio stream glue (sockets, poll) "
+                  "is represented by the harness' wire/grow rules, not executed. Theorems closed under the global context.")
+    technique = "Coq theorems: ring-level writer and reader histories refine the stream-level codec invariants, end-to-end composition (delivered is a prefix of sent); specification-level differential check of the ring-level mechanism model"
     coq_dir = "Cobs"
     coq_deps = ("C13",)
     propfile = "Properties_C02.v"
